@@ -58,6 +58,9 @@ type C07Node struct {
 	Path  string `json:"p"`             // Entry.Path()
 	NS    string `json:"ns"`            // expected namespace
 	AnyNS bool   `json:"any,omitempty"` // library-made implicit case directly above a grafted node: namespace not judged
+	// Opt: the node may be present or absent, neither is judged (nodes of a shared submodule in an
+	// older revision of a module: known finding D63; c07revsub.go).
+	Opt bool `json:"opt,omitempty"`
 }
 
 // C07Aug is what the generator knows about one augment statement.
